@@ -453,6 +453,15 @@ func (c *Ctx) configSinks() {
 				add(fld, "range")
 			case *ssa.IndexAddr, *ssa.Index:
 				followElem(fld, x.(ssa.Value), 0)
+			case *ssa.MakeClosure:
+				// captured by a function literal: followed inside it
+				if fn, isF := x.Fn.(*ssa.Function); isF {
+					for i, b := range x.Bindings {
+						if b == v && i < len(fn.FreeVars) {
+							follow(fld, fn.FreeVars[i], d+1, seen)
+						}
+					}
+				}
 			case *ssa.Store:
 				// stored into varargs array for formatting, or elsewhere
 				follow(fld, x.Addr, d+1, seen)
